@@ -1,10 +1,16 @@
-(* C18 runner: the reference interpreter's recorded context lookups next to the static report.
-   output: [0; nout; rendered text..; nasks; asks..; nund; undeclared..; nold; undeclared by the pre-fix tracker..]
-         | [1; code; nund; undeclared..; nold; ..] render error | [8] out of gas | [9] undecodable *)
+(* C18 runner: the lookups the error-carrying interpreter records, whatever the outcome of the render,
+   next to the static reports.
+   output: [0; nout; rendered text..; <asks>; <reports>]    render finished
+         | [1; code; <asks>; <reports>]                     render failed (asks up to the failure)
+         | [8] out of gas | [9] undecodable
+   <asks>    = nasks; asks..
+   <reports> = nund; undeclared..; nold; undeclared by the pre-fix tracker..; nnested; (var; nattrs; attrs..).. *)
 From Coq Require Import String.
-From MJ Require Import Common.Base Lang.Syntax Lang.Meta Lang.Interp Lang.Codec C18.Old.
+From MJ Require Import Common.Base Lang.Syntax Lang.Meta Lang.Interp Lang.Codec C18.XInterp C18.Old C18.NMeta.
 
 Definition FUEL := 400%nat.
+
+Definition enc_path (p : path) : list Z := fst p :: lenZ (snd p) :: snd p.
 
 Definition asks (inp : list Z) : list Z :=
   match drequest inp with
@@ -12,12 +18,13 @@ Definition asks (inp : list Z) : list Z :=
   | Some (md, esc, ctx, body) =>
       let und := find_undeclared body in
       let old := find_undeclared_old body in
-      let tail := lenZ und :: und ++ lenZ old :: old in
-      match Interp.run (mkCfg md ctx esc) FUEL body with
-      | Ok s => let o := output_of s in 0 :: lenZ o :: o ++ lenZ (s_asks s) :: s_asks s ++ tail
-      | Err c => 1 :: c :: tail
-      | Panic => [2]
-      | OutOfGas => [8]
+      let nst := find_undeclared_nested body in
+      let tail := lenZ und :: und ++ lenZ old :: old ++ lenZ nst :: flat_map enc_path nst in
+      match run_asks (mkCfg md ctx esc) FUEL body with
+      | OkE s => let o := output_of s in 0 :: lenZ o :: o ++ lenZ (s_asks s) :: s_asks s ++ tail
+      | ErrE code a => 1 :: code :: lenZ a :: a ++ tail
+      | PanicE => [2]
+      | GasE => [8]
       end
   end.
 
